@@ -558,6 +558,7 @@ package dawn
 //@   requires f != nil
 //@   ensures  compares-contents: result.3 == nil ==> (result.0 <==> old(f.oldSum) == f.sum)
 //@   ensures  reason-given: (result.3 == nil && !result.0) ==> result.1 != ""
+//@   retassert a-missing-file-is-not-an-error: result.3 != nil ==> (err != nil && !isnotexist(err))
 //@   modifies f.sum
 
 // A function target is up to date only if it always runs or its recorded environment equals the
@@ -687,10 +688,16 @@ package dawn
 //@   modifies confined
 //@ func (*dawn.Project).builtin_target
 //@   uses dawn.repoSourcePath variant named
+//@   uses (*label.Label).String variant function-of-fields
 //@   requires proj != nil
 //@   callsite Split: assert splits-the-confined-path: $0 == confined
 //@   modifies heap, confined, smap, n_json, json_failed, n_save, saved_rerun, saved_data, saved_deps, ipos
 //@   loop over generates: step one-output-per-entry: when true ensures len(gens) == old(len(gens)) + 1
+// C04 (one runner entry per target): the runner identifies a dependency by its string, the project
+// by the label it parses to. Every dependency string a target declares is the rendering of a label
+// (parsed and resolved against the module, or taken from a target value) - never the spelling the
+// user wrote - so two spellings of one label cannot become two runner entries.
+//@   loop over for#1: step dependency-is-a-rendered-label: when true ensures len(dependencies) == old(len(dependencies)) + 1 && dependencies[old(len(dependencies))] == lstr4(deplabel.Kind, deplabel.Project, deplabel.Package, deplabel.Name)
 
 // ---------------------------------------------------------------- C14: the index load registers every indexed target
 // `dawn gc` loads the project from the index. Every target the index lists is registered (whether
